@@ -26,6 +26,8 @@ type PropConfig struct {
 	AutoRequires []string `json:"auto_requires"`
 	AutoEnsures  []string `json:"auto_ensures"`
 	Primitives   []string `json:"primitives"`
+	AutoLoopInv  []string `json:"auto_loop_invariants"`
+	AutoModifies []string `json:"auto_modifies"`
 	Inline       []string `json:"inline"`
 	Noop         []string `json:"noop"`
 	Tracked      []string `json:"tracked"`
@@ -38,6 +40,7 @@ type PropConfig struct {
 	TrustedBase  []string `json:"trusted_base"`
 	LevelText    string   `json:"level_text"`
 	Replay       string   `json:"replay"`
+	Parts        []string `json:"parts"` // further profile configs (props/<name>.json) run as part of this property
 }
 
 const lemmaPrelude = `(set-logic ALL)
@@ -87,6 +90,11 @@ func mkProfile(cfg *PropConfig) *Profile {
 		Inline: map[string]bool{}, Noop: map[string]bool{}, Tracked: cfg.Tracked}
 	if cfg.Mode == "bv" {
 		p.Mode = ModeBV
+	}
+	for i, r := range cfg.AutoLoopInv {
+		if n, err := ParseExpr(r); err == nil {
+			p.AutoLoopInv = append(p.AutoLoopInv, Clause{Label: fmt.Sprintf("auto%d", i), E: n, Src: r})
+		}
 	}
 	for _, k := range cfg.Inline {
 		p.Inline[expandKey(k)] = true
@@ -149,6 +157,9 @@ func cmdVerify(args []string) int {
 			bad++
 		}
 	}
+	if len(run.Uncovered) > 0 {
+		fmt.Println("functions calling a primitive directly without a contract in this profile:", run.Uncovered)
+	}
 	fmt.Printf("total obligations %d, discharged %d, wall %.1fs, dir %s\n", run.Total, run.Discharged, run.Wall, run.Dir)
 	if bad > 0 {
 		return 1
@@ -194,6 +205,7 @@ type PropRun struct {
 	Inlined    []string
 	SolverTime map[string]float64
 	SolverWins map[string]int
+	Uncovered  []string
 }
 
 func RunProperty(cfg *PropConfig, root string, opts RunOpts) (*PropRun, error) {
@@ -272,10 +284,20 @@ func RunProperty(cfg *PropConfig, root string, opts RunOpts) (*PropRun, error) {
 				}
 				con.Ensures = append(con.Ensures, Clause{Label: fmt.Sprintf("auto%d", i), E: n, Src: r})
 			}
+			if len(con.Modifies) == 0 && !con.ModAll && !con.ModNone {
+				for _, r := range cfg.AutoModifies {
+					n, err := ParseExpr(r)
+					if err != nil {
+						return nil, err
+					}
+					con.Modifies = append(con.Modifies, n)
+				}
+			}
 		}
 	}
 	if len(cfg.Primitives) > 0 && opts.Only == "" {
 		run.Funcs = append(run.Funcs, coverageClosure(eng, prof, cfg, keys)...)
+		run.Uncovered = uncoveredReachers(eng, prof, cfg)
 	}
 	for _, k := range keys {
 		if opts.Only != "" && !strings.Contains(k, opts.Only) {
